@@ -199,6 +199,8 @@ def _run(ctx):
         # apply loop calls) with the next entries applied at once
         ("mem-viasm", "mem", ["-viasm", "-random", str(n["sm"]), "-len", "30", "-seed", str(ctx.seed + 60)], True),
         ("pebble-viasm", "pebble", ["-viasm", "-random", str(max(4, n["sm"] // 3)), "-len", "30", "-seed", str(ctx.seed + 61)], True),
+        # regression stage for 0f1a644: pebble opened with the configuration option disable_wal (strict)
+        ("pebble-nowal", "pebble", ["-nowal", "-random", "8" if quick else "80", "-len", "24", "-seed", str(ctx.seed + 70)], True),
         # large sst files with fixed-length values, restore - rewrite - restore (files of the same name,
         # size and tail but other content in the data directory and in a checkpoint)
         ("pebble-bigsst", "pebble", ["-bigsst", "1" if quick else "6", "-seed", seed], True),
@@ -264,10 +266,6 @@ def _run(ctx):
         "guarantees it by program order, pebble since ee3b302 (notify after Checkpoint() has returned); both are exercised with "
         "entries applied as soon as WaitReady returns. It remains an ASSUMPTION for RocksDB (20 ms timer in engine/rockeng.go), "
         "which is only available through a dependency shim and is informational here",
-        "the data engines are opened with their write-ahead log enabled (the default). With the configuration option "
-        "disable_wal a pebble checkpoint misses every write that is still in the memtable (pebbleEngCheckpoint.Save does not "
-        "flush; observed with `ckptsim -nowal`: Backup(2,7) of 6 records restores an empty store) - a non-default "
-        "configuration, not part of the verdict",
         "the engine's cut itself is not observable: the bnotify event is validated as BackupCut followed by BackupNotify",
         "checkpoints are fetched through the local-copy path of common.RunFileSync (cp -rp); the rsync path needs a daemon and is not exercised",
         "mem and pebble are the deciding engines; RocksDB is only available through a dependency shim and is informational",
